@@ -243,3 +243,33 @@ func VerifH_C23_inc_counter() {
 	vr.Cover("done")
 }
 
+
+// C23: OAEP decryption with distinct label and MGF hashes. The size guard must be
+// taken from the label hash (it fixes the encoded-message layout): too small a key
+// is refused with ErrDecryption, and no ciphertext makes the routine panic. The raw
+// RSA operation is environment (arbitrary encoded message of the key's size).
+// verif: covers=refused,decoded
+func VerifH_C23_oaep_decrypt_two_hashes() {
+	k := 7
+	priv := &PrivateKey{PublicKey: PublicKey{N: new(big.Int).Lsh(big.NewInt(1), uint(8*k-1)), E: big.NewInt(3)}}
+	em := vr.Bytes("em", k)
+	vr.Stub("github.com/zmap/zcrypto/rsa.decrypt", func(p *PrivateKey, c []byte, check bool) ([]byte, error) {
+		return append([]byte{}, em...), nil
+	})
+	hLen, mLen := vr.Pick(vr.Int("labelHashSize", 1, 4)), vr.Pick(vr.Int("mgfHashSize", 1, 4))
+	var out []byte
+	var err error
+	panicked := vr.MayPanic(func() {
+		out, err = decryptOAEP(&mHash{size: hLen}, &mHash{size: mLen}, nil, priv, make([]byte, k), nil)
+	})
+	vr.Assert(!panicked, "OAEP decryption never panics")
+	if k < 2*hLen+2 {
+		vr.Assert(err == ErrDecryption, "a key too small for the label hash is refused")
+		vr.Cover("refused")
+		return
+	}
+	if err == nil {
+		vr.Assert(len(out) <= k-2*hLen-2, "a decoded message fits the space the label hash leaves")
+		vr.Cover("decoded")
+	}
+}
